@@ -561,10 +561,14 @@ func (bs *Client) receiveBlocksFrom(ctx context.Context, from peer.ID, blks []bl
 		bs.blockReceivedNotifier.ReceivedBlocks(from, wanted)
 	}
 
-	// Publish the block to any Bitswap clients that had requested blocks.
+	// Publish the blocks to any Bitswap clients that had requested them.
 	// (the sessions use this pubsub mechanism to inform clients of incoming
-	// blocks)
-	bs.notif.Publish(from, wanted...)
+	// blocks). All blocks are published, not only those that a session was
+	// interested in when the message was split above: the sessions have just
+	// been told about all of them, and a session that registered its interest
+	// in the meantime now considers the block received and stops asking for
+	// it. A block nobody subscribed to is simply dropped by the pubsub.
+	bs.notif.Publish(from, blks...)
 }
 
 // ReceiveMessage is called by the network interface when a new message is
